@@ -59,7 +59,7 @@ func runC19(t *rapid.T) {
 	scr := gen.DrawScramble(t, fs)
 	tr := &c19Trace{Frame: fs, Scramble: scr}
 
-	dialect := rapid.IntRange(0, 5).Draw(t, "dialect")
+	dialect := rapid.IntRange(0, 7).Draw(t, "dialect")
 	var conf []qsql.ConfigFunc
 	cfg := simdb.Config{}
 	switch dialect {
@@ -81,6 +81,15 @@ func runC19(t *rapid.T) {
 		tr.Dialect = "incrementing-only"
 		conf = append(conf, qsql.Incrementing())
 		cfg.Incrementing = true
+	case 6:
+		// presets and primitives compose: each sets what it is about, nothing else
+		tr.Dialect = "postgres-then-mysql"
+		conf = append(conf, qsql.Postgres(), qsql.MySQL())
+		cfg.Escape, cfg.Incrementing = '`', true
+	case 7:
+		tr.Dialect = "incrementing-then-sqlite"
+		conf = append(conf, qsql.Incrementing(), qsql.SQLite())
+		cfg.Escape, cfg.Incrementing = '"', true
 	case 5:
 		tr.Dialect = "custom-escape"
 		// any rune may be configured, also one beyond ASCII
